@@ -1947,43 +1947,43 @@ MANIFEST = {
     "design_ref": "DESIGN.md 4/C04",
 }
 FINDINGS = [
-    {"status": "fixed", "key": "nat_const_ineq:conclusion-differs:types-only", "commit": "2b672bd",
+    {"status": "fixed", "key": "nat_const_ineq:conclusion-differs:types-only", "commit": "d00d59f",
      "what": "nat_const_ineq on ~((2::real) = 0): eval reports |- ~((2::real) = 0), the expansion proves |- ~((2::nat) = 0)"},
-    {"status": "fixed", "key": "nat_const_ineq:conclusion-differs:structure", "commit": "2b672bd",
+    {"status": "fixed", "key": "nat_const_ineq:conclusion-differs:structure", "commit": "d00d59f",
      "what": "nat_const_ineq on ~(of_nat 1 = (0::nat)): eval reports the goal, the expansion proves the normal form ~((1::nat) = 0)"},
-    {"status": "fixed", "key": "imp_conj:conclusion-differs:head", "commit": "74e5417",
+    {"status": "fixed", "key": "imp_conj:conclusion-differs:head", "commit": "c112fcb",
      "what": "imp_conj on `A & A` (not an implication): eval reports |- A & A, the expansion proves |- A --> A"},
-    {"status": "fixed", "key": "imp_disj:conclusion-differs:head", "commit": "acb88ff",
+    {"status": "fixed", "key": "imp_disj:conclusion-differs:head", "commit": "a3719ed",
      "what": "imp_disj on `E | E`: eval reports |- E | E, the expansion proves |- E --> E"},
-    {"status": "fixed", "key": "prove_avalI:conclusion-differs:head", "commit": "63a7008",
+    {"status": "fixed", "key": "prove_avalI:conclusion-differs:head", "commit": "ca82104",
      "what": "prove_avalI on `r s t n` with another head constant r: eval reports |- r s t n, the expansion proves |- avalI s t n"},
-    {"status": "fixed", "key": "imp_to_or:conclusion-differs:structure", "commit": "f0479c6",
+    {"status": "fixed", "key": "imp_to_or:conclusion-differs:structure", "commit": "bf1fcfa",
      "what": "imp_to_or args=(~c, ~c | a) prevs=[|- a]: eval reports |- ~c | a, the expansion proves |- ~c | ~~(~c | a) | a (goal argument treated as a literal)"},
-    {"status": "fixed", "key": "verit_eq_congruent_pred:expansion-rejected:output-does-not-match", "commit": "f0479c6",
+    {"status": "fixed", "key": "verit_eq_congruent_pred:expansion-rejected:output-does-not-match", "commit": "bf1fcfa",
      "what": "verit_eq_congruent_pred on ~(x = y) | P x | ~P y: every expansion ends in an imp_to_or step that the checker rejects"},
-    {"status": "fixed", "key": "verit_eq_congruent:expansion-rejected:output-does-not-match", "commit": "855946d",
+    {"status": "fixed", "key": "verit_eq_congruent:expansion-rejected:output-does-not-match", "commit": "fe79923",
      "what": "verit_eq_congruent on ~(y = w) | f w = f y: expansion assumes w = y, which the literal does not discharge; checker rejects (also needs C04-5)"},
-    {"status": "fixed", "key": "verit_th_resolution:expansion-rejected:AssertionError", "commit": "76800df",
+    {"status": "fixed", "key": "verit_th_resolution:expansion-rejected:AssertionError", "commit": "acd240b",
      "what": "verit_th_resolution on [|- false | a, |- ~a | ~d] -> ~d | false: nested swap_disj_to_front / combine_disj_clauses expand to the bare premise, `export: atom` (C04-6, C04-7)"},
-    {"status": "fixed", "key": "verit_norm_lia:conclusion-differs:structure", "commit": "1bfb078",
+    {"status": "fixed", "key": "verit_norm_lia:conclusion-differs:structure", "commit": "885296f",
      "what": "verit_norm_lia on i: eval reports |- i = 0 + i, the expansion proves |- i = 1 * i"},
-    {"status": "fixed", "key": "verit_norm_lra:conclusion-differs:structure", "commit": "7458045",
+    {"status": "fixed", "key": "verit_norm_lra:conclusion-differs:structure", "commit": "433f6f9",
      "what": "verit_norm_lra on s: eval reports |- s = 0 + s, the expansion proves |- s = 1 * s"},
-    {"status": "fixed", "key": "verit_la_generic:expansion-rejected:output-does-not-match", "commit": "1bfb078",
+    {"status": "fixed", "key": "verit_la_generic:expansion-rejected:output-does-not-match", "commit": "885296f",
      "what": "verit_la_generic: every expansion with a verit_norm_lia/lra step is rejected by the checker (C04-9, C04-10)"},
-    {"status": "fixed", "key": "fun_upd_eval:expansion-rejected:TypeInferenceException", "commit": "2b672bd",
+    {"status": "fixed", "key": "fun_upd_eval:expansion-rejected:TypeInferenceException", "commit": "d00d59f",
      "what": "fun_upd_eval on ((%x::int. 0)(0 := 1)) 3 = 0: the expansion contains a nat_const_ineq step on int numerals (accepted by its eval before C04-1)"},
-    {"status": "fixed", "key": "fun_upd_eval:expansion-rejected:output-does-not-match", "commit": "2b672bd",
+    {"status": "fixed", "key": "fun_upd_eval:expansion-rejected:output-does-not-match", "commit": "d00d59f",
      "what": "same cause as above"},
-    {"status": "fixed", "key": "intros:expansion-rejected:InvalidDerivationException", "commit": "ad652d7",
+    {"status": "fixed", "key": "intros:expansion-rejected:InvalidDerivationException", "commit": "aa633e8",
      "what": "intros args=[?m. n = 2 * m] prevs=[|- ?m. n = 2 * m, |- _VAR m, n = 2 * m |- n = 2 * m, |- (%m. n = 2 * m) n]: the nested "
              "apply_theorem exE step evaluates (premises matched up to beta) but its expansion raises, so the checker rejects the expansion of intros"},
-    {"status": "fixed", "key": "verit_not_implies1:hypotheses-added:premise-hypotheses-missing-in-eval", "commit": "fixes/C18-08-not_implies-hyps.patch",
+    {"status": "fixed", "key": "verit_not_implies1:hypotheses-added:premise-hypotheses-missing-in-eval", "commit": "f582d63",
      "what": "verit_not_implies1 on H3 |- ~(a --> e): eval reports |- a, the expansion proves H3 |- a (repaired by the C18 patch)"},
-    {"status": "fixed", "key": "verit_not_implies2:hypotheses-added:premise-hypotheses-missing-in-eval", "commit": "fixes/C18-08-not_implies-hyps.patch",
+    {"status": "fixed", "key": "verit_not_implies2:hypotheses-added:premise-hypotheses-missing-in-eval", "commit": "f582d63",
      "what": "verit_not_implies2: eval drops the premise's hypotheses (repaired by the C18 patch)"},
-    {"status": "fixed", "key": "verit_subproof:hypotheses-added:premise-hypotheses-missing-in-eval", "commit": "fixes/C18-10-subproof-hyps.patch",
+    {"status": "fixed", "key": "verit_subproof:hypotheses-added:premise-hypotheses-missing-in-eval", "commit": "818000f",
      "what": "verit_subproof: eval drops hypotheses that the expansion keeps (repaired by the C18 patch)"},
-    {"status": "fixed", "key": "verit_and_pos:conclusion-differs:structure", "commit": "fixes/C18-05-and_pos-or_pos.patch",
+    {"status": "fixed", "key": "verit_and_pos:conclusion-differs:structure", "commit": "2a30d1c",
      "what": "verit_and_pos on ((d | ~c), ~c): eval reports |- (d | ~c) | ~c, the expansion proves |- ~~c | ~c (repaired by the C18 patch)"},
 ]
